@@ -27,14 +27,17 @@ pub enum Txn {
     Delete,
     Purge,
     SchemaReindex,
+    /// a consumer applies the incremental changes of a supplier
+    ReplApply,
 }
 
-const ALL_TXNS: [Txn; 5] = [
+const ALL_TXNS: [Txn; 6] = [
     Txn::Create,
     Txn::Rename,
     Txn::Delete,
     Txn::Purge,
     Txn::SchemaReindex,
+    Txn::ReplApply,
 ];
 
 impl Txn {
@@ -45,6 +48,7 @@ impl Txn {
             Txn::Delete => "delete-to-recycle",
             Txn::Purge => "purge-recycled",
             Txn::SchemaReindex => "schema-change-with-reindex",
+            Txn::ReplApply => "replication-apply",
         }
     }
     fn from_name(s: &str) -> Option<Txn> {
@@ -96,6 +100,8 @@ fn apply(txn: Txn, w: &mut QueryServerWriteTransaction<'_>) -> Result<(), Operat
         Txn::Delete => w.internal_delete_uuid(U_DEL),
         Txn::Purge => w.purge_recycled().map(|_| ()),
         Txn::SchemaReindex => w.domain_raise(DOMAIN_TGT_LEVEL),
+        // needs the supplier: handled by the child itself
+        Txn::ReplApply => Err(OperationError::InvalidState),
     }
 }
 
@@ -134,6 +140,19 @@ pub fn child(args: Args) -> ! {
                 return 4;
             }
         };
+        // the supplier of the replication transaction lives in a second file
+        let supplier = if txn == Txn::ReplApply {
+            let p2 = PathBuf::from(spec["path2"].as_str().unwrap_or(""));
+            match open_level(&p2, POOL, arcsize, secs(10), txn.level()).await {
+                Ok(s) => Some(s),
+                Err(e) => {
+                    eprintln!("child open supplier: {e}");
+                    return 4;
+                }
+            }
+        } else {
+            None
+        };
         if mode == "open-only" {
             drop(srv);
             return 0;
@@ -150,7 +169,30 @@ pub fn child(args: Args) -> ! {
                 return 5;
             }
         };
-        if let Err(e) = apply(txn, &mut w) {
+        let applied = match &supplier {
+            None => apply(txn, &mut w),
+            Some(sup) => async {
+                let mut sr = sup.qs.read().await?;
+                let ruv = w.consumer_get_state()?;
+                let ctx = sr.supplier_provide_changes(ruv)?;
+                if !matches!(
+                    ctx,
+                    kanidmd_lib::repl::proto::ReplIncrementalContext::V1 { .. }
+                ) {
+                    eprintln!("child: supplier did not provide incremental changes");
+                    return Err(OperationError::InvalidState);
+                }
+                match w.consumer_apply_changes(ctx)? {
+                    kanidmd_lib::repl::proto::ConsumerState::Ok => Ok(()),
+                    kanidmd_lib::repl::proto::ConsumerState::RefreshRequired => {
+                        eprintln!("child: consumer demands a refresh");
+                        Err(OperationError::InvalidState)
+                    }
+                }
+            }
+            .await,
+        };
+        if let Err(e) = applied {
             eprintln!("child op: {e:?}");
             return 6;
         }
@@ -261,6 +303,74 @@ fn build_pristine(dir: &Path, shape: &Shape, idx: usize, level: u32) -> Result<P
     Ok(p)
 }
 
+/// A supplier / consumer pair of one domain: the consumer was refreshed from the supplier, then
+/// the supplier committed more changes. Returns (consumer file, supplier file).
+fn build_repl_pair(dir: &Path, shape: &Shape, idx: usize) -> Result<(PathBuf, PathBuf), String> {
+    let ps = dir.join(format!("pristine-{idx}-supplier.db"));
+    let pc = dir.join(format!("pristine-{idx}-consumer.db"));
+    let rt = kvcore::srv::rt();
+    rt.block_on(async {
+        let sup = open(&ps, POOL, shape.arcsize, secs(0)).await?;
+        build_fixture(&sup, secs(1)).await?;
+        build_filler(&sup, secs(2), shape.filler.min(60)).await?;
+        let con = open(&pc, POOL, shape.arcsize, secs(0)).await?;
+        {
+            let mut sr = sup.qs.read().await.map_err(|e| format!("{e:?}"))?;
+            let mut cw = con.qs.write(secs(4)).await.map_err(|e| format!("{e:?}"))?;
+            let ctx = sr.supplier_provide_refresh().map_err(|e| format!("provide refresh: {e:?}"))?;
+            cw.consumer_apply_refresh(ctx).map_err(|e| format!("apply refresh: {e:?}"))?;
+            cw.commit().map_err(|e| format!("refresh commit: {e:?}"))?;
+        }
+        // changes the consumer has not seen
+        let mut w = sup.qs.write(secs(6)).await.map_err(|e| format!("{e:?}"))?;
+        w.internal_create(vec![
+            person(fu(70), "fs_repl_new0", "made on the supplier"),
+            group(fu(71), "fs_repl_group", &[fu(70), U_PROBE]),
+        ])
+        .map_err(|e| format!("{e:?}"))?;
+        w.internal_modify_uuid(
+            U_MOD,
+            &ModifyList::new_purge_and_set(Attribute::Name, Value::new_iname("fs_mod_on_supplier")),
+        )
+        .map_err(|e| format!("{e:?}"))?;
+        w.internal_delete_uuid(U_DEL).map_err(|e| format!("{e:?}"))?;
+        w.commit().map_err(|e| format!("{e:?}"))?;
+        drop(sup);
+        drop(con);
+        Ok::<(), String>(())
+    })?;
+    Ok((pc, ps))
+}
+
+fn supplier_copy_path(file: &Path) -> PathBuf {
+    PathBuf::from(format!("{}.supplier", file.to_string_lossy()))
+}
+
+/// Put fresh copies of the pristine file(s) in place and return the child spec for them.
+fn place_files(
+    pristine: &Path,
+    pristine2: Option<&Path>,
+    file: &Path,
+    shape: &Shape,
+    txn: Txn,
+    mode: &str,
+) -> Result<Json, String> {
+    copy_db(pristine, file).map_err(|e| format!("copy: {e:?}"))?;
+    let mut spec = json!({"path": file.to_string_lossy(), "txn": txn.name(), "mode": mode, "arcsize": shape.arcsize});
+    if let Some(p2) = pristine2 {
+        let f2 = supplier_copy_path(file);
+        copy_db(p2, &f2).map_err(|e| format!("copy supplier: {e:?}"))?;
+        spec["path2"] = json!(f2.to_string_lossy());
+    }
+    Ok(spec)
+}
+
+fn remove_files(file: &Path) {
+    for p in db_files(file).into_iter().chain(db_files(&supplier_copy_path(file))) {
+        let _ = std::fs::remove_file(p);
+    }
+}
+
 /// State of a twin (uncrashed) run: raw tables, and the dump a normal server start produces.
 struct Twin {
     raw: RawDb,
@@ -369,6 +479,8 @@ struct Plan {
     shape: usize,
     txn: Txn,
     pristine: PathBuf,
+    /// second database of the transaction (the replication supplier)
+    pristine2: Option<PathBuf>,
     before: Twin,
     after: Twin,
     n: u64,
@@ -377,19 +489,16 @@ struct Plan {
     thin: bool,
 }
 
-fn make_twin(dir: &Path, tag: &str, pristine: &Path, shape: &Shape, txn: Txn, mode: &str) -> Result<(Twin, Option<Json>), String> {
+fn make_twin(dir: &Path, tag: &str, pristine: &Path, pristine2: Option<&Path>, shape: &Shape, txn: Txn, mode: &str) -> Result<(Twin, Option<Json>), String> {
     let f = dir.join(format!("twin-{tag}.db"));
-    copy_db(pristine, &f).map_err(|e| format!("copy: {e:?}"))?;
-    let spec = json!({"path": f.to_string_lossy(), "txn": txn.name(), "mode": mode, "arcsize": shape.arcsize});
+    let spec = place_files(pristine, pristine2, &f, shape, txn, mode)?;
     let r = spawn_child(&spec, None)?;
     if r.code != Some(0) {
         return Err(format!("twin child ({mode}) failed: {r:?}"));
     }
     let raw = raw_db_rw(&f)?;
     let rs = restart_and_check(&f, shape, txn, false)?;
-    for p in db_files(&f) {
-        let _ = std::fs::remove_file(p);
-    }
+    remove_files(&f);
     Ok((Twin { raw, dump: rs.dump }, r.report))
 }
 
@@ -400,8 +509,7 @@ fn judge_crash(
     acc: &mut Acc,
 ) -> Result<(), String> {
     let shape = &SHAPES[plan.shape];
-    copy_db(&plan.pristine, file).map_err(|e| format!("copy: {e:?}"))?;
-    let mut spec = json!({"path": file.to_string_lossy(), "txn": plan.txn.name(), "mode": "count", "arcsize": shape.arcsize});
+    let mut spec = place_files(&plan.pristine, plan.pristine2.as_deref(), file, shape, plan.txn, "count")?;
     let res = match crash {
         Crash::Hook(k) => {
             spec["mode"] = json!("abort");
@@ -484,14 +592,7 @@ fn judge_crash(
     acc.count(&format!("recovered.{side}"));
     acc.count(&format!("recovered.{}.{side}", plan.txn.name()));
 
-    // 2. a normal server start on it (quick tier: only every 4th of the crash points that lie
-    // before the transaction's first write to the file, i.e. in its operation phase)
-    if let Crash::Hook(k) = crash {
-        if plan.thin && *k <= plan.n_ops && *k % 4 != 0 {
-            acc.count("restart_skipped_operation_phase_point");
-            return Ok(());
-        }
-    }
+    // 2. a normal server start on it
     let rs = restart_and_check(file, shape, plan.txn, true)?;
     let twin = if side == "before" { &plan.before } else { &plan.after };
     if rs.dump != twin.dump {
@@ -527,8 +628,7 @@ fn syscall_window(dir: &Path, tag: &str, plan: &Plan) -> Result<Vec<(&'static st
     let shape = &SHAPES[plan.shape];
     let f = dir.join(format!("sc-{tag}.db"));
     let log = dir.join(format!("sc-{tag}.log"));
-    copy_db(&plan.pristine, &f).map_err(|e| format!("copy: {e:?}"))?;
-    let spec = json!({"path": f.to_string_lossy(), "txn": plan.txn.name(), "mode": "count", "arcsize": shape.arcsize});
+    let spec = place_files(&plan.pristine, plan.pristine2.as_deref(), &f, shape, plan.txn, "count")?;
     let sa: Vec<String> = vec![
         "-f".into(),
         "-o".into(),
@@ -572,9 +672,7 @@ fn syscall_window(dir: &Path, tag: &str, plan: &Plan) -> Result<Vec<(&'static st
             }
         }
     }
-    for p in db_files(&f) {
-        let _ = std::fs::remove_file(p);
-    }
+    remove_files(&f);
     let _ = std::fs::remove_file(&log);
     if markers != 2 {
         return Err(format!("expected 2 marker syscalls in the strace log, saw {markers}"));
@@ -586,7 +684,7 @@ pub fn run(args: Args) {
     let mut run = Run::new(
         args.clone(),
         "fault_enumeration",
-        "case = (database shape, write transaction, crash point): a child process runs the transaction on a copy of one pristine database file and aborts at the k-th storage point of the transaction for every k in 1..N (N learnt by a counting child; the re-index transaction is sampled: all of the operation phase, head and tail of the commit, an even spread between); thorough adds SIGKILL at entry of every pwrite64 / fdatasync / fsync / ftruncate the process issues inside the transaction. Non-trivial = crash inside the commit phase (after the first dirty write); distinct by (shape, transaction, crash point)",
+        "case = (database shape, write transaction, crash point): a child process runs the transaction on a copy of one pristine database file and aborts at the k-th storage point of the transaction for every k in 1..N (N learnt by a counting child; the re-index transaction is sampled: all of the operation phase, head and tail of the commit, an even spread between); quick takes every 4th point of the operation phase and samples the replication transaction too; thorough adds SIGKILL at entry of every pwrite64 / fdatasync / fsync / ftruncate the process issues inside the transaction. Non-trivial = crash inside the commit phase (after the first dirty write); distinct by (shape, transaction, crash point)",
     );
     run.assume("process death is not power loss: the page cache survives, so missing or mis-ordered fsync calls are invisible to this check");
     run.assume("BEFORE and AFTER are produced by uncrashed twin child processes from byte-identical copies of the same file; kanidm's start-up rewrites built-in entries deterministically (same file, same simulated time), which the twins share with the crashed run");
@@ -631,6 +729,18 @@ pub fn run(args: Args) {
                 }
             }
         }
+        let mut pairs: std::collections::BTreeMap<usize, (PathBuf, PathBuf)> = Default::default();
+        if txns.contains(&Txn::ReplApply) {
+            for s in 0..nshapes {
+                match build_repl_pair(&dir, &SHAPES[s], s) {
+                    Ok(p) => {
+                        pairs.insert(s, p);
+                    }
+                    Err(e) => run.acc.inconclusive(&format!("replication pair: {e}")),
+                }
+            }
+        }
+        let pairs = &pairs;
         let out: Mutex<Vec<Plan>> = Mutex::new(Vec::new());
         let jobs = &jobs;
         let pristine = &pristine;
@@ -643,12 +753,19 @@ pub fn run(args: Args) {
                     continue;
                 }
                 let shape = &SHAPES[*s];
-                let p = pristine[&(*s, t.level())].clone();
+                let (p, p2) = if *t == Txn::ReplApply {
+                    match pairs.get(s) {
+                        Some((c, su)) => (c.clone(), Some(su.clone())),
+                        None => continue,
+                    }
+                } else {
+                    (pristine[&(*s, t.level())].clone(), None)
+                };
                 let tag = format!("{s}-{}", t.name());
                 let r: Result<Plan, String> = (|| {
-                    let (before, _) = make_twin(dir, &format!("{tag}-b"), &p, shape, *t, "open-only")?;
-                    let (after, rep) = make_twin(dir, &format!("{tag}-a"), &p, shape, *t, "count")?;
-                    let (after2, _) = make_twin(dir, &format!("{tag}-a2"), &p, shape, *t, "count")?;
+                    let (before, _) = make_twin(dir, &format!("{tag}-b"), &p, p2.as_deref(), shape, *t, "open-only")?;
+                    let (after, rep) = make_twin(dir, &format!("{tag}-a"), &p, p2.as_deref(), shape, *t, "count")?;
+                    let (after2, _) = make_twin(dir, &format!("{tag}-a2"), &p, p2.as_deref(), shape, *t, "count")?;
                     if after.raw != after2.raw || after.dump != after2.dump {
                         return Err(format!(
                             "two uncrashed runs of {} differ (transaction not deterministic): {:?}",
@@ -664,6 +781,7 @@ pub fn run(args: Args) {
                         shape: *s,
                         txn: *t,
                         pristine: p.clone(),
+                        pristine2: p2.clone(),
                         before,
                         after,
                         n: rep["n"].as_u64().unwrap_or(0),
@@ -694,8 +812,12 @@ pub fn run(args: Args) {
     let mut sampled = Vec::new();
     for (pi, p) in plans.iter().enumerate() {
         let cap: u64 = tier.pick(40, 200);
-        let ks: Vec<u64> = if p.n <= 600 {
-            (1..=p.n).collect()
+        let ks: Vec<u64> = if p.n <= 400 {
+            // quick tier: of the crash points that lie before the transaction's first write to
+            // the file (its operation phase) every 4th only
+            (1..=p.n)
+                .filter(|k| !p.thin || *k > p.n_ops || *k % 4 == 0)
+                .collect()
         } else {
             sampled.push(format!("{}:{} {} of {}", SHAPES[p.shape].name, p.txn.name(), cap, p.n));
             let mut v: std::collections::BTreeSet<u64> = (1..=(p.n_ops + 6).min(p.n)).collect();
